@@ -1290,6 +1290,7 @@ pub fn run(driver: &Driver, seed: u64, thorough: bool, replay: Option<&serde_jso
     rep.streams.push(value::vw_stream(driver, &schemas, seed, 24 * k));
     rep.streams.push(writers::cs_stream(driver, seed, 600 * k));
     rep.streams.push(writers::pn_stream(driver, &schemas, seed, 300 * k));
+    rep.streams.push(writers::font_stream(driver, seed, 40 * k));
     let (l1, l2) = oracle_laws(&schemas, seed, 60 * k, None);
     rep.oracles.push(l1);
     rep.oracles.push(l2);
